@@ -527,6 +527,34 @@ func runC04(w *core.W) {
 		c04Arith(w, e)
 		sample("boundary", e, i)
 	}
+	// 2b. machine-integer boundaries (a fast path through int64/int32/float64 would show here)
+	mach := []string{"9223372036854775808", "9223372036854775807", "9223372036854775806", "4294967296", "4294967295", "2147483648", "2147483647", "18446744073709551615", "18446744073709551616",
+		"9007199254740992", "9007199254740993", "4611686018427387904", "3037000500", "1", "2", "3", "10", "0", "1e19", "1e18", "0.5", "1000000007", "6442450941"}
+	mi := 0
+	for _, a := range mach {
+		for _, b := range mach {
+			for _, op := range arithOps {
+				for sg := 0; sg < 4; sg++ {
+					mi++
+					if !w.Mine(mi) {
+						continue
+					}
+					x, y := a, b
+					if sg&1 != 0 {
+						x = "-" + x
+					}
+					if sg&2 != 0 {
+						y = "-" + y
+					}
+					e := &AExpr{Op: op, L: &AExpr{Lit: x}, R: &AExpr{Lit: y}}
+					c04Arith(w, e)
+					c04Handback(w, e)
+					sample("machine-boundary", e, mi)
+				}
+			}
+		}
+	}
+	w.ExhaustivePart("every pair of 23 machine-integer boundary values x 4 sign combinations x 5 operators")
 	// 3. chains of up to 4 operations
 	r = w.RNG("chains")
 	var build func(ops int) *AExpr
